@@ -360,6 +360,7 @@ func R5(pkgs ...string) func(p *core.Prog) *core.Result {
 			in[k] = true
 		}
 		total := 0
+		headORs := 0
 		// field invariant: remaining-length entries (lengthStack.current) never exceed the largest value pushed
 		lenHi := map[string]*big.Int{}
 		type pushObs struct {
@@ -737,6 +738,7 @@ func R5(pkgs ...string) func(p *core.Prog) *core.Result {
 			sort.Slice(orl, func(i, j int) bool { return instrPos(orl[i]) < instrPos(orl[j]) })
 			for i, b := range orl {
 				total++
+				headORs++
 				pos := p.Pos(token.Pos(instrPos(b)))
 				if o := ors[b]; o.bad != nil {
 					r.Fail(".CBOR-HEAD", fmt.Sprintf("%s|major-or#%d", fkey, i+1), pos, fmt.Sprintf("%s packs an argument in %s into the initial byte next to the major type; only 0..23 may be packed inline (24..31 are the length-follows / indefinite codes)", fkey, o.bad), "")
@@ -757,6 +759,12 @@ func R5(pkgs ...string) func(p *core.Prog) *core.Result {
 			r.Undecided(".NEG-SIGN", "cborl.(*Parser).stepNeg", "decoder of major type 1 (stepNeg) not found")
 		}
 		r.Floor("conversions_and_heads", total, 15*len(pkgs))
+		if in["cborl"] {
+			cborWireConstants(p, r)
+			// the initial bytes the CBOR encoder assembles (major | argument): if the role of the major parameter is no
+			// longer recognised the head rule must not pass by finding nothing
+			r.Floor("cbor_head_ors", headORs, 8)
+		}
 		return r
 	}
 }
@@ -1190,4 +1198,40 @@ func nilSummary(f *ssa.Function, sizes types.Sizes, depth int) map[int]ival {
 	}
 	nilSummaryMemo[f] = out
 	return out
+}
+
+
+// cborWireConstants: the constants both the encoder and the parser are written
+// against are the numbers RFC 7049 assigns (section 2.1 major types, 2.2
+// additional information, 2.3 simple values and floats, break). The two sides
+// share them, so a wrong value round-trips inside the library and only fails
+// against other implementations.
+func cborWireConstants(p *core.Prog, r *core.Result) {
+	want := []struct {
+		name string
+		val  int64
+	}{
+		{"majorUint", 0 << 5}, {"majorNeg", 1 << 5}, {"majorBytes", 2 << 5}, {"majorText", 3 << 5},
+		{"majorArr", 4 << 5}, {"majorMap", 5 << 5}, {"majorTag", 6 << 5}, {"majorOther", 7 << 5},
+		{"majorMask", 0xe0}, {"minorMask", 0x1f},
+		{"len8b", 24}, {"len16b", 25}, {"len32b", 26}, {"len64b", 27}, {"lenIndef", 31},
+		{"codeFalse", 0xf4}, {"codeTrue", 0xf5}, {"codeNull", 0xf6}, {"codeUndef", 0xf7},
+		{"codeHalfFloat", 0xf9}, {"codeSingleFloat", 0xfa}, {"codeDoubleFloat", 0xfb}, {"codeBreak", 0xff},
+	}
+	n := 0
+	for _, w := range want {
+		nc := p.Const("cborl", w.name)
+		if nc == nil {
+			continue // a constant the tree no longer has is not wrong
+		}
+		n++
+		v, ok := constIntVal(nc.Value)
+		pos := p.Pos(nc.Pos())
+		if ok && v == w.val {
+			r.Ok(".CBOR-WIRE", pos, fmt.Sprintf("cborl.%s = %#x as in RFC 7049", w.name, w.val))
+		} else {
+			r.Fail(".CBOR-WIRE", "cborl."+w.name, pos, fmt.Sprintf("cborl.%s is %#x, RFC 7049 assigns %#x: encoder and parser share the constant, so the library still reads its own output, but documents of other CBOR implementations are refused or misread and the library's output is not CBOR", w.name, v, w.val), "")
+		}
+	}
+	r.Floor("cbor_wire_constants", n, 15)
 }
